@@ -1395,6 +1395,14 @@ class FortranFile:
             # must not be mistaken for a line continuation
             if FRegex.PP_ANY.match(line):
                 continue
+            # A fixed-form comment line holds no statements, whatever it contains
+            if (
+                get_full
+                and self.fixed
+                and FRegex.FIXED_COMMENT.match(line)
+                and not FRegex.FIXED_OPENMP.match(line)
+            ):
+                continue
             # Get full line, seek forward for code lines
             # @note line_no-1 refers to the array index for the current line
             if get_full:
